@@ -63,10 +63,11 @@ type Conn struct {
 	stallW       bool
 	blockedWrite bool
 	resumeW      bool
+	breakW       int // >= 0: the blocked write fails, the connection having taken this many of its bytes (-1: no)
 }
 
 func New() *Conn {
-	c := &Conn{failAt: -1}
+	c := &Conn{failAt: -1, breakW: -1}
 	c.cond = sync.NewCond(&c.mu)
 	return c
 }
@@ -211,6 +212,18 @@ func (c *Conn) Write(p []byte) (int, error) {
 			if c.closed {
 				c.blockedWrite, c.resumeW = false, false
 				return 0, closedErr("write")
+			}
+			if c.breakW >= 0 {
+				// the connection breaks under the blocked write
+				n := c.breakW
+				if n > len(p) {
+					n = len(p)
+				}
+				c.w = append(c.w, p[:n]...)
+				c.broken, c.breakW = true, -1
+				c.blockedWrite, c.resumeW = false, false
+				c.cond.Broadcast()
+				return n, ErrBroken
 			}
 			c.resumeW = false
 		}
@@ -413,6 +426,27 @@ func (c *Conn) StallWrites(on bool) {
 }
 
 // ResumeWrite lets a parked Write re-examine the connection (gated mode).
+// ExpireWriteDeadline lets a write deadline that is set pass now (the replay has no clock: the caller's deadline passing
+// is an event of the schedule, and with it passes the write deadline flush derived from it).
+func (c *Conn) ExpireWriteDeadline() bool {
+	c.mu.Lock()
+	defer c.mu.Unlock()
+	if c.wdl.IsZero() {
+		return false
+	}
+	c.wdl = time.Now().Add(-time.Millisecond)
+	return true
+}
+
+// BreakBlockedWrite makes the write that is blocked on the stalled connection fail once it is resumed, the connection
+// having taken k bytes of it; every later write fails too.
+func (c *Conn) BreakBlockedWrite(k int) {
+	c.mu.Lock()
+	c.breakW = k
+	c.mu.Unlock()
+	c.cond.Broadcast()
+}
+
 func (c *Conn) ResumeWrite() {
 	c.mu.Lock()
 	c.resumeW = true
